@@ -108,6 +108,32 @@ fn mutation_text(block: &[FuncS], form: usize) -> String {
     print_module(&ModuleS::new("m").with(items))
 }
 
+/// Derived blocks that stop short of a base table whose tail consists of placeholder slots or
+/// of functions whose names start with an underscore: still "a slot dropped".
+fn short_table_texts() -> Vec<(String, String)> {
+    let mut out = vec![];
+    for (what, base_block, derived_block) in [
+        ("trailing placeholder slots dropped", "    #[size(4)]\n    vftable {\n        pub fn a(&self);\n        pub fn b(&self);\n    },\n", "    vftable {\n        pub fn a(&self);\n        pub fn b(&self);\n    },\n"),
+        ("placeholder gap and last function dropped", "    vftable {\n        pub fn a(&self);\n        #[index(3)]\n        pub fn b(&self);\n    },\n", "    vftable {\n        pub fn a(&self);\n    },\n"),
+        ("underscore-named last function dropped", "    vftable {\n        pub fn a(&self);\n        pub fn _purecall(&self);\n    },\n", "    vftable {\n        pub fn a(&self);\n    },\n"),
+        ("derived table sized shorter than the base", "    #[size(6)]\n    vftable {\n        pub fn a(&self);\n    },\n", "    #[size(3)]\n    vftable {\n        pub fn a(&self);\n    },\n"),
+        ("empty derived block", "    vftable {\n        pub fn a(&self);\n    },\n", "    vftable {\n    },\n"),
+    ] {
+        for mid in [false, true] {
+            let mut t = format!("pub type B {{\n{base_block}    pub x: *const u8,\n}}\n");
+            let first = if mid {
+                t.push_str("pub type Mid {\n    #[base]\n    pub base: B,\n    pub m: *const u8,\n}\n");
+                "Mid"
+            } else {
+                "B"
+            };
+            t.push_str(&format!("pub type D {{\n{derived_block}    #[base]\n    pub base: {first},\n    pub y: *const u8,\n}}\n"));
+            out.push((format!("{what}{}", if mid { " (through an intermediate type)" } else { "" }), t));
+        }
+    }
+    out
+}
+
 fn cases(tier: &str) -> Vec<Case> {
     let mut out = vec![];
     let nmax = if tier == "thorough" { 4 } else { 4 };
@@ -115,6 +141,9 @@ fn cases(tier: &str) -> Vec<Case> {
         for h in shapes(n) {
             out.push(Case::Shape(h));
         }
+    }
+    for (what, text) in short_table_texts() {
+        out.push(Case::Mutation(Some(format!("short table: {what}")), text));
     }
     for (what, block) in mutations() {
         for form in 0..3 {
